@@ -810,6 +810,14 @@ class Executor:
                    'EPSILON': 1.1920929e-07 if f32 else 2.220446049250313e-16, 'MIN_POSITIVE': 1.17549435e-38 if f32 else 2.2250738585072014e-308}[k]
             bits = _s.unpack('<I', _s.pack('<f', val))[0] if f32 else _s.unpack('<Q', _s.pack('<d', val))[0]
             return Flt(z3.fpBVToFP(z3.BitVecVal(bits, 32 if f32 else 64), sort))
+        m = re.match(r'^\{(alloc\d+): &', txt)
+        if m:
+            # reference to a static item: the check supplies the object (`static NAME`), otherwise it stays opaque
+            name = self.prog.statics.get(m.group(1))
+            h = self.extra_models.get('static ' + str(name).split('::')[-1])
+            if h:
+                return h(st)
+            return Opaque('const', txt)
         # unit-like enum variant / named constant of this crate
         c = strip_generics(txt)
         segs = c.split('::')
